@@ -67,7 +67,7 @@ func runC01(r *core.Run) {
 	r.Rule("dumps printed by a model of runtime/traceback.go (G-DUMP): goroutine count, states, flags, symbol/file/arg shapes random, " +
 		"format variant = case index over all 864 combinations of EOL x indent x file-indent x gp/m x fp/sp/pc x elided style x created-by style; " +
 		"parsed snapshot compared field by field with the abstract dump; distinct = hash of rendered bytes; " +
-		"non-trivial = >= 2 goroutines or a nested aggregate or a line > 16 KiB; plus live-runtime rounds (see live_*)")
+		"one dump in 2000 has up to 4000 goroutines; non-trivial = >= 2 goroutines or a nested aggregate or a line > 16 KiB; plus live-runtime rounds (see live_*)")
 	r.Assume("the generator's reading of the runtime traceback format and of the linker's PathToPrefix escaping",
 		"64-bit host (pointer ceiling 2^63-1)")
 	n := r.N(80000, 1500000)
@@ -82,6 +82,9 @@ func runC01(r *core.Run) {
 		}
 		if i%50 != 0 {
 			cfg.MaxFrames = 12 // keep most dumps small, the 150-frame ones are i%50==0
+		}
+		if i%2000 == 7 {
+			cfg.MaxG, cfg.MaxFrames = 4000, 3 // now and then thousands of goroutines (a busy server): nothing is capped
 		}
 		if rr.Chance(1, 3) {
 			cfg.PtrPool = []uint64{0xc000012340, 0xc000012348, 0xc0000a0000, 1 << 20, 512*1024 + 1}
